@@ -599,6 +599,28 @@ var c14Scaled = []struct {
 		}
 		return append(b, 'Z', 0x90)
 	}},
+	{"k references, in a typed list of maps of a named untyped-map type, to the enclosing map of k/2 entries", func(k int) []byte {
+		b := []byte{0x7a, 'H'}
+		for i := 0; i < k/2; i++ {
+			b = append(b, 3, byte('a'+i%26), byte('a'+i/26%26), byte('a'+i/676%26), 0xe0)
+		}
+		b = append(append(b, 3, 'l', 's', 't', 'V', 6, '[', 'p', 'r', 'o', 'p', 's'), encInt(int32(k))...)
+		for i := 0; i < k; i++ {
+			b = append(b, 0x51, 0x91)
+		}
+		return append(b, 'Z', 0x90)
+	}},
+	{"k references, as values of a typed map of a named untyped-map type, to the enclosing map of k/2 entries", func(k int) []byte {
+		b := []byte{0x7a, 'H'}
+		for i := 0; i < k/2; i++ {
+			b = append(b, 3, byte('a'+i%26), byte('a'+i/26%26), byte('a'+i/676%26), 0xe0)
+		}
+		b = append(b, 3, 'l', 's', 't', 'M', 5, 'p', 'r', 'o', 'p', 's')
+		for i := 0; i < k; i++ {
+			b = append(append(b, encInt(int32(i))...), 0x51, 0x91)
+		}
+		return append(b, 'Z', 'Z', 0x90)
+	}},
 	{"a class definition of k/4 wire fields and k instances opened inside one another", func(k int) []byte {
 		b := append([]byte{'C', 0x04, 'N', 'o', 'd', 'e'}, encInt(int32(k/4))...)
 		b = append(b, 0x01, 'a')
